@@ -4,15 +4,23 @@
   seed_recheck.py <label> [Cnn ...]      (default: the seed's own property)
 
 Works like step 2 of seed_eval.py: private repo clone + private engine copy under $SEVAL_DIR
-(default /tmp/seval2), so /repo itself is never touched. Updates meta.json in place
+(default /tmp/seval3), so /repo itself is never touched. Updates meta.json in place
 (checks[Cnn], caught_by, machinery_exits, rechecked_at).
 """
 import json, os, subprocess, sys, time
 label = sys.argv[1]
-d = f'/verif/seeded/{label}'
-meta = json.load(open(f'{d}/meta.json'))
+adhoc = os.path.isfile(label)          # a bare patch file: try it, keep nothing
+if adhoc:
+    d = os.path.dirname(os.path.abspath(label))
+    if os.path.basename(label) != 'patch.diff':
+        import shutil, tempfile
+        d = tempfile.mkdtemp(); shutil.copy(label, f'{d}/patch.diff')
+    meta = {'property': 'C00', 'checks': {}}
+else:
+    d = f'/verif/seeded/{label}'
+    meta = json.load(open(f'{d}/meta.json'))
 checks = sys.argv[2:] or [meta['property']]
-S = os.environ.get('SEVAL_DIR', '/tmp/seval2')
+S = os.environ.get('SEVAL_DIR', '/tmp/seval3')
 env = dict(os.environ, CARGO_NET_OFFLINE='true', PATH='/tmp/tools:' + os.environ['PATH'], MINILUA_COMPAT_5_2='1')
 def sh(cmd, cwd=None, timeout=3600, env=env):
     p = subprocess.run(cmd, shell=True, cwd=cwd, env=env, stdout=subprocess.PIPE, stderr=subprocess.STDOUT, text=True, timeout=timeout)
@@ -51,4 +59,5 @@ allc = sorted(meta['checks'])
 meta['caught_by'] = [c for c in allc if meta['checks'][c]['violation']]
 meta['machinery_exits'] = [c for c in allc if meta['checks'][c]['exit'] not in (0, 1)]
 meta['rechecked_at'] = time.strftime('%Y-%m-%d %H:%M:%S')
-json.dump(meta, open(f'{d}/meta.json', 'w'), indent=1)
+if not adhoc:
+    json.dump(meta, open(f'{d}/meta.json', 'w'), indent=1)
